@@ -269,13 +269,16 @@ def run(ck):
                             ck.fail("rotation:%s" % nm, "response changes under a common rotation of all %s" % nm,
                                     dict(sysinp, Q=Q.tolist(), signal=str(st)), dev)
             if kind in (1, 3):
-                sc = rng.choice([0.5, 1.7, -2.0])
-                agg_s, agg1_s = build(energies, [[sc * x for x in dv] for dv in dipoles], widths, couplings)
-                r3, _ = response(agg_s, evolution(agg1_s, relax), pol, t2)
-                dev = float(np.abs(r3[signal_TOTL] - sc ** 4 * base[signal_TOTL]).max() / (sc ** 4 * scale))
-                ck.resid("fourth-power scaling", dev)
-                if dev > 1e-10:
-                    ck.fail("scaling", "response does not scale with the fourth power of a common dipole factor", dict(sysinp, factor=sc), dev)
+                # an ordinary factor and an extreme one (nothing in the statement restricts the size of the dipoles)
+                for sc in (rng.choice([0.5, 1.7, -2.0]), rng.choice([1.0e-3, 3.0e-3]), 40.0):
+                    agg_s, agg1_s = build(energies, [[sc * x for x in dv] for dv in dipoles], widths, couplings)
+                    r3, _ = response(agg_s, evolution(agg1_s, relax), pol, t2)
+                    for st in (signal_TOTL, signal_REPH, signal_NONR):
+                        dev = float(np.abs(r3[st] - sc ** 4 * base[st]).max() / (sc ** 4 * scale))
+                        ck.resid("fourth-power scaling", dev)
+                        if dev > 1e-10:
+                            ck.fail("scaling", "response does not scale with the fourth power of a common dipole factor",
+                                    dict(sysinp, factor=sc, signal=str(st)), dev)
             if not coupled:
                 parts = None
                 for k in range(n):
